@@ -242,7 +242,8 @@ func orderOfNullOrRand(order reflect.Value) bool {
 //	col <op> value   =>  substr(col, 1, N) <op'> <placeholder>                        (placeholder on the right)
 //	col <op> col2    =>  substr(col, 1, N) <op'> substr(col2, 1, N)
 //
-// with op' = "=" for = / <=> / like / ilike and "!=" for != / not like / not ilike. Anything else about the node
+// with op' = "=" for = / like / ilike, "<=>" for <=> (it must stay NULL-safe: NOT (col <=> v) selects the rows holding NULL,
+// NOT (col = v) does not - fixed in /repo by 6a1732b) and "!=" for != / not like / not ilike. Anything else about the node
 // must be unchanged. Returns false (nothing recorded) when the two nodes are not in that relation.
 func (d *differ) tryRewrite(a, b *sqlparser.ComparisonExpr, path string) bool {
 	oldCol, ok := a.Left.(*sqlparser.ColName)
@@ -276,8 +277,10 @@ func (d *differ) tryRewrite(a, b *sqlparser.ComparisonExpr, path string) bool {
 	}
 	wantOp := a.Operator
 	switch a.Operator {
-	case sqlparser.EqualStr, sqlparser.NullSafeEqualStr, sqlparser.LikeStr, sqlparser.ILikeStr:
+	case sqlparser.EqualStr, sqlparser.LikeStr, sqlparser.ILikeStr:
 		wantOp = sqlparser.EqualStr
+	case sqlparser.NullSafeEqualStr:
+		wantOp = sqlparser.NullSafeEqualStr
 	case sqlparser.NotEqualStr, sqlparser.NotLikeStr, sqlparser.NotILikeStr:
 		wantOp = sqlparser.NotEqualStr
 	}
